@@ -167,7 +167,9 @@ class Runs:
             tests_b = [{'layer': j} for j in rng.sample(range(nl), rng.randint(2, nl))]
             tests_a = [{'layer': j} for j in range(nl)]
             cases.append({'module': 'vcten_%d_%d' % (k, rng.randint(0, 10 ** 6)),
-                          'a': {'layers': a, 'tests': tests_a, 'options': []}, 'b': {'layers': b, 'tests': tests_b, 'options': []}})
+                          'a': {'layers': a, 'tests': tests_a, 'options': []},
+                          # half of the observed runs spread the layers over subprocesses: one group per layer there as well
+                          'b': {'layers': b, 'tests': tests_b, 'options': rng.choice([[], ['-j2']])}})
             rep.count('runs layers=%d' % nl)
         return cases
 
@@ -182,7 +184,8 @@ class Runs:
             def order(o):
                 names = worldrun.parse_stdout(o.get('stdout', ''))['running']
                 idx = {'%s.%s' % (c['module'], L['name']): j for j, L in enumerate(c['b']['layers'])}
-                return [idx.get(nm, 99) for nm in names if nm in idx or not nm.endswith('UnitTests')]
+                # (the unit-test layer and the placeholder layer of -j runs are not layers of the world)
+                return [idx.get(nm, 99) for nm in names if nm in idx or not (nm.endswith('UnitTests') or nm == '.EmptyLayer')]
             return {'r_warm': order(warm), 'r_fresh': order(fresh), 'aborted': [warm.get('aborted'), fresh.get('aborted')]}
         return fw.parallel_map(one, list(enumerate(cases)))
 
